@@ -203,6 +203,7 @@ static Scenario make_c08(std::map<std::string, long> const& cfg)
     for (auto const& n : w.notes)
       if (n.find("Quill INFO") == std::string::npos) w.fail("unexpected-backend-error", n);
     w.vars["attempted"] = attempted;
+    if (w.vars.count("stall")) w.fail("control-request-never-completes", "a control request (flush / backtrace / removal) never completes although the backend keeps polling");
   };
   return sc;
 }
